@@ -79,6 +79,9 @@ func main() {
 			os.Exit(2)
 		}
 		scatterInts = sp.flags&2 != 0
+		if sp.flags&8 != 0 {
+			traceOn = true
+		}
 		switch sp.kname {
 		case "int":
 			bad += runK(&keyInt, sp)
